@@ -59,6 +59,12 @@ def run(ctx):
             for idx in (1, 2):
                 for kshift in (0, 1, 2):      # the edit is given as a list, a container, a single item
                     cases.append({"kind": "hist", "meter": [0, 0], "acts": [pa] * (2 + kshift) + [dict(ed, i=idx)], "share": True})
+    # an entry placed as an empty list receives the container object that is also the content of another entry, then more notes
+    e0 = {"op": "place_notes", "v": {"b": 4, "d": 0, "r": [1, 1]}, "arg": {"rest": False, "items": []}}
+    for pa in [x for x in places if x["arg"]["items"]][:6]:       # (an empty chord here would be the very object of entry 1)
+        for ed in [e for e in edits if not e["arg"]["rest"]][:4]:
+            cases.append({"kind": "hist", "meter": [0, 0], "share": True,
+                          "acts": [e0, pa, {"op": "place_at_obj", "i": 1, "arg": pa["arg"]}, {"op": "place_at", "i": 1, "arg": ed["arg"]}]})
     ctx.behaviours = len(cases)
     ctx.exhaustive = True
     ctx.bounds = {"quick": "fills to capacity: all 80 vocabulary values x 3 bounded meters (place until refused, then twice more); all histories of depth 2 over 19 actions x 4 meters; %d distinct exact-sum fills found by TLC simulation (one more attempt after the bar is exactly full); 150 walks of depth 40 over the full vocabulary with content edits and meter changes; 700 sampled of the 4153 near-overflow fills enumerated by TLC over the 80-value vocabulary (two odd values, plain padding, a last value within +-1/1000 whole note of the remaining space) on 5 meters" % len(ex2),
